@@ -47,7 +47,8 @@ pub struct INested {
 pub struct IterCase {
     /// 0 SignalOnly, 1 WithRawSiginfo, 2 WithOrigin
     pub exf: u8,
-    /// 0 wait() loop, 1 forever(), 2 pending() polling, 3 poll_signal with a readiness callback
+    /// 0 wait() loop, 1 forever(), 2 pending() polling, 3 poll_signal with a readiness callback,
+    /// 4 a fresh forever() per item (the previous iterator is dropped with its batch partly consumed)
     pub consumer: u8,
     pub polls: u8,
     pub init: Vec<u8>,
@@ -98,7 +99,7 @@ pub fn strategy(with_close: bool) -> BoxedStrategy<IterCase> {
     };
     (
         0u8..3,
-        0u8..4,
+        0u8..5,
         1u8..5,
         vec(0u8..3, 1..3),
         vec(vec(op, 1..7), 1..4),
@@ -191,7 +192,7 @@ const SYNC_BATCH: u32 = 8;
 type Batch = Arc<std::sync::Mutex<Option<Box<dyn FnOnce() + Send>>>>;
 
 pub fn has_second_consumer(case: &IterCase) -> bool {
-    case.handoff && matches!(case.consumer % 4, 0 | 2)
+    case.handoff && matches!(case.consumer % 5, 0 | 2)
 }
 
 fn consumer_body<E>(case: &IterCase, rd: UnixStream, wr: UnixStream, handle_out: std::sync::mpsc::Sender<Handle>, batch: Batch)
@@ -217,8 +218,8 @@ where
     for s in &init {
         vsched::mark("add-call", *s as i64, 0);
     }
-    match case.consumer % 4 {
-        0 | 1 | 2 => {
+    match case.consumer % 5 {
+        0 | 1 | 2 | 4 => {
             // SignalsInfo owns its own socket pair; the harness pair is unused
             drop((rd, wr));
             let mut sigs = SignalsInfo::<E>::new(&init).expect("SignalsInfo::new");
@@ -236,7 +237,21 @@ where
                 }));
                 vsched::sync_signal(SYNC_BATCH);
             }
-            match case.consumer % 4 {
+            match case.consumer % 5 {
+                4 => loop {
+                    // `for sig in &mut signals { ...; break }` over and over: a fresh infinite
+                    // iterator per item; what an abandoned iterator had fetched but not handed out
+                    // is still stored and must come out of the next one
+                    let c = vsched::call("forever", 4, 0);
+                    let mut it = sigs.forever();
+                    let r = it.next();
+                    drop(it);
+                    vsched::ret(c, r.is_some() as i64);
+                    match r {
+                        Some(r) => yielded(&r, 0),
+                        None => break,
+                    }
+                },
                 0 => loop {
                     let c = vsched::call("wait", 0, 0);
                     let p = sigs.wait();
@@ -945,7 +960,7 @@ pub fn analyse(case: &IterCase, res: &RunResult) -> CaseReport {
     }
     let _ = final_scan_done;
     rep.class(["SignalOnly", "WithRawSiginfo", "WithOrigin"][case.exf as usize % 3]);
-    rep.class(["wait-loop", "forever", "pending-polling", "poll_signal"][case.consumer as usize % 4]);
+    rep.class(["wait-loop", "forever", "pending-polling", "poll_signal", "forever-one-item-at-a-time"][case.consumer as usize % 5]);
     if res.nested_run > 0 {
         rep.class("nested-delivery");
     }
@@ -1042,7 +1057,7 @@ fn render(case: &IterCase, res: &RunResult) -> Value {
         }
     }
     let exn = ["SignalOnly", "WithRawSiginfo", "WithOrigin"][case.exf as usize % 3];
-    let con = ["wait-loop", "forever", "pending-polling", "poll_signal"][case.consumer as usize % 4];
+    let con = ["wait-loop", "forever", "pending-polling", "poll_signal", "forever-one-item-at-a-time"][case.consumer as usize % 5];
     json!({
         "exfiltrator": exn,
         "consumer": con,
@@ -1133,7 +1148,7 @@ const ASSUME: &[&str] = &[
 pub static C09: PropDef = PropDef {
     id: "C09",
     prefixes: &["C09/"],
-    rule: "proptest-generated scenarios: exfiltrator (3) x consumer mode {wait loop, forever, pending polling, poll_signal with readiness callback} x 1-3 other threads with <=6 ops over {deliver (3 signals), add_signal, is_closed} x nested deliveries into any thread x byte schedule; a quiescence observer thread runs only when no other thread can, then closes the instance. Oracle: every finished delivery of a watched signal has a yield of that signal whose load step lies after the delivery's store, before quiescence; anything that only comes out after the observer's close was delivered, unreported and un-woken. Non-trivial = a store landed inside a consumer call or the consumer blocked; distinct = hash of realised call/return/delivery/yield interleaving",
+    rule: "proptest-generated scenarios: exfiltrator (3) x consumer mode {wait loop, forever, pending polling, poll_signal with readiness callback, a fresh forever() per item} x 1-3 other threads with <=6 ops over {deliver (3 signals), add_signal, is_closed} x nested deliveries into any thread x byte schedule; a quiescence observer thread runs only when no other thread can, then closes the instance. Oracle: every finished delivery of a watched signal has a yield of that signal whose load step lies after the delivery's store, before quiescence; anything that only comes out after the observer's close was delivered, unreported and un-woken. Non-trivial = a store landed inside a consumer call or the consumer blocked; distinct = hash of realised call/return/delivery/yield interleaving",
     assumptions: ASSUME,
     cases: (1200, 30_000),
     shrink_iters: 600,
